@@ -752,6 +752,19 @@ NextPin:
 			rollback()
 			return fmt.Errorf("Node type must be sent with new edges")
 		}
+
+		// the graph must stay acyclic: the node must not already be above
+		// its new parent (through live or deleted edges), as the hash and
+		// upstream walks recurse until they reach the root
+		cycle, err := sdb.isAbove(tx, nodeID, parentID, make(map[string]bool))
+		if err != nil {
+			rollback()
+			return err
+		}
+		if cycle {
+			rollback()
+			return fmt.Errorf("Error: edge %v -> %v would create a cycle", parentID, nodeID)
+		}
 		// did not find edge, need to add it
 		edge.Up = parentID
 		edge.Down = nodeID
@@ -872,6 +885,46 @@ func (sdb *DbSqlite) updateHashEdge(tx *sql.Tx, edge data.Edge, parentID string,
 	}
 
 	return sdb.writeHashCache(tx, cache)
+}
+
+// isAbove returns true if node above is id or an ancestor of id
+func (sdb *DbSqlite) isAbove(tx *sql.Tx, above, id string, visited map[string]bool) (bool, error) {
+	if id == above {
+		return true, nil
+	}
+
+	if visited[id] {
+		return false, nil
+	}
+	visited[id] = true
+
+	rows, err := tx.Query("SELECT up FROM edges WHERE down=?", id)
+	if err != nil {
+		return false, err
+	}
+	defer rows.Close()
+
+	var ups []string
+	for rows.Next() {
+		var up string
+		if err := rows.Scan(&up); err != nil {
+			return false, err
+		}
+		ups = append(ups, up)
+	}
+
+	if err := rows.Close(); err != nil {
+		return false, err
+	}
+
+	for _, up := range ups {
+		found, err := sdb.isAbove(tx, above, up, visited)
+		if err != nil || found {
+			return found, err
+		}
+	}
+
+	return false, nil
 }
 
 func (sdb *DbSqlite) updateHash(tx *sql.Tx, id string, hashUpdate uint32) error {
